@@ -79,7 +79,7 @@ Proof.
                            | (r'', Ok s) =>
                                match indexOf r'' s with
                                | Raise e => (r'', nss', maxk', Raise e)
-                               | Ok i => (r'', nss_add k i nss', k, Ok tt)
+                               | Ok i => (r'', nss_add k i nss', Nat.max maxk' k, Ok tt)
                                end
                            end
                        end
